@@ -1199,6 +1199,28 @@ pub fn ignore_line(
         }
         4 | 5 => {
             let h = doc_hash(r, alg, serial);
+            if r.chance(1, 3) {
+                // a byte-level near miss of a supported keyword (one bit of one
+                // byte flipped, e.g. a digit turned into the control byte that
+                // `c | 0x20` folds back onto it)
+                static NEAR: std::sync::OnceLock<Vec<Vec<u8>>> = std::sync::OnceLock::new();
+                let near = NEAR.get_or_init(|| {
+                    crate::gen::digest::near_names()
+                        .into_iter()
+                        .map(|s| s.into_bytes())
+                        .filter(|b| {
+                            !b.is_empty()
+                                && b.iter().all(|c| name_byte_ok(*c) && *c != 0)
+                                && !Alg::is_keyword_any_case(b)
+                                && !b.eq_ignore_ascii_case(b"size")
+                                && b[0] != b'#'
+                                && !b.starts_with(b"$NetBSD")
+                        })
+                        .collect()
+                });
+                let a = r.pick(near);
+                return (fields(r, &[a, &paren(name), b"=", h.as_bytes()]), LineClass::UnknownAlg);
+            }
             let a = r.pick(&UNKNOWN_ALGS);
             (fields(r, &[a, &paren(name), b"=", h.as_bytes()]), LineClass::UnknownAlg)
         }
